@@ -278,9 +278,9 @@ PLANS = {
                 "changed (all cells read back); for every accepted configuration texts that put the configured OOV node next to every "
                 "dictionary word are analysed and hook H2 must see no out-of-range matrix access (debug-assertion and release builds). "
                 "distinct_nontrivial = distinct grid points at a boundary (id within 1 of a matrix dimension, cost at the i16 limits, absent POS)",
-        "assumptions": COMMON_ASSUMPTIONS + ["known findings D1 (id == size accepted) and D3 (wrong dimension for non-square matrices) are "
-                                             "recognised by evaluating the pinned acceptance rule: only outcomes that differ from BOTH the "
-                                             "correct rule and the pinned rule are new violations"],
+        "assumptions": COMMON_ASSUMPTIONS + ["known finding D1 (id == size accepted) is recognised by evaluating the tree's "
+                                             "acceptance rule ('>' instead of '>='): only outcomes that differ from BOTH the correct rule "
+                                             "and that rule are new violations"],
     },
 }
 
